@@ -427,6 +427,12 @@ func (w *Workload) opProposeDispute(h int64) (*Intent, bool) {
 		fee.SetInt64(r.Range(1, 20_000)) // around the 10 000 minimum
 	}
 	fromBond := r.Chance(0.25) && !w.g.Avoid // known finding: fee paid from stake is short by truncation units
+	if fromBond && r.Chance(0.7) {
+		// paying from stake needs a reporter with stake
+		if ra, ok := w.usableReporter(-1); ok {
+			a = ra
+		}
+	}
 	in := w.newIntent(a, MsgSpec{K: "propose_dispute", Rep: rs, E: cat, N: fee.String(), B: fromBond})
 	in.Note = note
 	return in, true
@@ -474,7 +480,33 @@ func (w *Workload) opAddFee(h int64) (*Intent, bool) {
 			}
 		}
 	}
-	return w.newIntent(a, MsgSpec{K: "add_fee", U: d.D.DisputeId, N: amt.String(), B: r.Chance(0.2) && !w.g.Avoid}), true
+	fromBond := r.Chance(0.2) && !w.g.Avoid
+	if !w.g.Avoid {
+		// several payers paying from stake share one fee tracker (C13: every payer can claim its part)
+		for _, p := range w.v.FeePayers() {
+			if p.ID == d.D.DisputeId && p.Info.FromBond && r.Chance(0.6) {
+				if ra, ok := w.usableReporter(w.acc().ActorByAddr(p.Payer)); ok {
+					a, fromBond = ra, true
+					if r.Chance(0.7) {
+						amt = missing
+					}
+				}
+				break
+			}
+		}
+	}
+	return w.newIntent(a, MsgSpec{K: "add_fee", U: d.D.DisputeId, N: amt.String(), B: fromBond}), true
+}
+
+// usableReporter picks a usable actor that is a registered reporter (other than `not`).
+func (w *Workload) usableReporter(not int) (int, bool) {
+	reps := w.v.Reporters()
+	for _, i := range w.r.Perm(len(reps)) {
+		if reps[i].Actor != not && reps[i].Actor >= 0 && w.usable(reps[i].Actor) {
+			return reps[i].Actor, true
+		}
+	}
+	return 0, false
 }
 
 func (w *Workload) opVote(h int64) (*Intent, bool) {
@@ -617,6 +649,9 @@ func (w *Workload) opUpdateTeam(h int64) (*Intent, bool) {
 
 func (w *Workload) privilegedMsg() MsgSpec {
 	r := w.r
+	if w.g.Long && r.Chance(0.6) {
+		return MsgSpec{K: "mint_init"}
+	}
 	switch r.Intn(8) {
 	case 7:
 		// governance lowers (or restores) the staking validator cap: validators beyond it leave the bonded set
